@@ -1540,8 +1540,9 @@ package engine
 //@   resolves-before-inspecting
 //@ func variant
 //@   property C11
-//@   trusted
+//@   nosafety
 //@   resolves-before-inspecting
+//@   loop 1 invariant[the-renaming-is-injective] forall a Variable, b Variable :: has(s, a) && has(s, b) && s[a] == s[b] ==> a == b
 
 //@ func (*clause).compileBody
 //@   property C03 C10
